@@ -31,6 +31,12 @@ def main():
     os.makedirs(out_dir, exist_ok=True)
     shutil.copy(patch, out_dir + "/patch.diff")
     res = {"name": name, "checks": {}}
+    # a partial re-run (--checks) keeps the recorded results of the checks that are not run again
+    if checks != ALL and os.path.exists(out_dir + "/result.json"):
+        try:
+            res["checks"] = json.load(open(out_dir + "/result.json")).get("checks", {})
+        except Exception:
+            pass
     if suite:
         wt = "/tmp/wtb-" + name
         sh("git -C /repo worktree remove --force %s" % wt)
@@ -70,6 +76,7 @@ def main():
     finally:
         sh("git -C /repo reset -q && git -C /repo checkout -- .")
         sh("cd /verif && git checkout -- evidence; rm -rf /verif/replays/*")
+    alarms = sorted(c for c, r in res["checks"].items() if r.get("exit") != 0 or r.get("lines"))
     res["alarms"] = alarms
     json.dump(res, open(out_dir + "/result.json", "w"), indent=1)
     print(name, "alarms:", alarms)
